@@ -49,6 +49,8 @@ class Contract:
         replay=None,
         out_params=None,
         bounded=None,
+        ghost_init=None,
+        ghost_updates=None,
     ):
         self.target = target
         self.params = dict(params or {})
@@ -75,6 +77,8 @@ class Contract:
         self.max_paths = max_paths
         self.logs = logs
         self.replay = replay
+        self.ghost_init = dict(ghost_init or {})  # ghost local -> (type, initial value expr)
+        self.ghost_updates = dict(ghost_updates or {})  # statement anchor -> [(ghost local, new value expr)]
         self.bounded = bounded  # reason string: contract kept for run-time monitors only (not proved)
         self.out_params = dict(out_params or {})  # param name -> spec of its value at exit (in-place mutation)
 
